@@ -9,6 +9,9 @@ from common import (Broken, Case, Scratch, build_coq, build_harness, check_props
                     run_both, seed_from_env, write_config, write_evidence, write_replay, TRUSTED_BASE, VERIF)
 
 
+PANIC_MARKER = [-999999]
+
+
 class Batch:
     def __init__(self, name, cases, config=None, env=None, timeout=600, correspondence=None):
         self.name = name
@@ -80,6 +83,9 @@ def classify(spec, batch, cases, results, report):
             report.errors.append((c, r, r["err"]))
             continue
         bad_oracles = [k for k, v in r["oracles"].items() if not v]
+        if r["panic"] is not None and r["model"] == PANIC_MARKER:
+            report.count("agreed-panic")
+            continue           # model and implementation agree that this input panics
         if r["panic"] is not None:
             if spec.panic_is_failure:
                 why = "implementation panicked: " + r["panic"]
